@@ -35,17 +35,20 @@ OversizeMeasure == [msgs |-> [x \in {"1"} |-> "size:5000"]] @@
 CutMeasure == [OversizeMeasure EXCEPT !.cl.cut = "at:7"] 
 GzCorrupt == [OkStreamGzip EXCEPT !.cl.frames = <<[Frame(1, TRUE) EXCEPT !.fault = "gzcorrupt"]>>]
 Undecodable == [OkUnary EXCEPT !.cl.frames = <<[Frame(1, FALSE) EXCEPT !.fault = "undecodable"]>>]
+\* the handler closes the request body from one goroutine while another is blocked in a Read in the
+\* middle of a message of a decoded (transforming) request stream; the rest of the message arrives later
+CloseRace == [OkStreamGzip EXCEPT !.cl.frames = <<Frame(1, TRUE)>>, !.hd.noread = TRUE, !.hd.closerace = TRUE]
 BackendPanic == [OkUnary EXCEPT !.hd.exit = "panic"]
 BackendError == [OkStreamGzip EXCEPT !.hd.end.code = 8, !.hd.errat = 0]
 BigResponse == [msgs |-> [x \in {"9"} |-> "size:5000"]] @@ OkUnary
 
 Kinds == {OkUnary, OkStreamGzip, RejectCodec, CutMid, Oversize, OversizeMeasure, CutMeasure, GzCorrupt, Undecodable,
-          BackendPanic, BackendError, BigResponse}
+          BackendPanic, BackendError, BigResponse, CloseRace}
 Probes == {OkUnary, OkStreamGzip, OkRest, OkServerStream}
 
 HInit == hist = <<>> /\ pr = OkUnary /\ hph = "grow" /\ Init
 Grow == /\ hph = "grow" /\ Len(hist) < (IF What = "history" THEN MaxHist ELSE NConc)
-        /\ \E k \in (IF What = "history" THEN Kinds ELSE Probes \cup {CutMid, Oversize, OversizeMeasure, GzCorrupt, BackendError}) : hist' = Append(hist, k)
+        /\ \E k \in (IF What = "history" THEN Kinds ELSE Probes \cup {CutMid, Oversize, OversizeMeasure, GzCorrupt, BackendError, CloseRace}) : hist' = Append(hist, k)
         /\ UNCHANGED <<pr, hph>>
 Pick == /\ hph = "grow"
         /\ (What = "conc" => Len(hist) >= 2)
